@@ -184,11 +184,22 @@ class Peer(object):
         alpha['msg-reject'] = lambda: (dict(type='MSG_REJECT', reason=2, rej_msg_id=4), False)
         alpha['unknown-type'] = lambda: (dict(type='UNKNOWN', msg_id=0x0f, raw=b''), True)
         alpha['unknown-type-ff'] = lambda: (dict(type='UNKNOWN', msg_id=0xff, raw=b'\x01\x02'), True)
+        alpha['unknown-type-00'] = lambda: (dict(type='UNKNOWN', msg_id=0x00, raw=b''), True)
+        alpha['unknown-type-08'] = lambda: (dict(type='UNKNOWN', msg_id=0x08, raw=b'\x00'), True)
         if not self.sent_contact:
             alpha = {
                 'contact-bad-magic': lambda: (dict(type='contact', magic=b'dtn?', flags=0), True),
                 'contact-bad-version': lambda: (dict(type='contact', version=3, flags=0), True),
                 'contact-bad-version-7': lambda: (dict(type='contact', version=7, flags=0), True),
+                # a bad header and a good one arriving in the same read: nothing after the bad one may be acted on
+                'contact-bad-magic+good': lambda: (dict(type='RAW', raw=tw.encode(dict(type='contact', magic=b'DTN!', flags=0))
+                                                        + tw.encode(dict(type='contact', flags=0))), True),
+                # (a complete TCPCLv3 contact header: flags, keepalive 0, empty node id)
+                'contact-v3+good': lambda: (dict(type='RAW', raw=b'dtn!\x03\x00\x00\x00\x00' + tw.encode(dict(type='contact', flags=0))), True),
+                'contact-bad-magic+good+init': lambda: (dict(type='RAW', raw=tw.encode(dict(type='contact', magic=b'dtn?', flags=0))
+                                                             + tw.encode(dict(type='contact', flags=0))
+                                                             + tw.encode(dict(type='SESS_INIT', keepalive=0, segment_mru=2 ** 20, transfer_mru=2 ** 30,
+                                                                              nodeid=b'dtn://peer/', ext=[]))), True),
             }
         return alpha
 
@@ -205,7 +216,7 @@ class Peer(object):
         before = self.reactions()
         was_closed = self.closed()
         was_term = self.terminating()
-        self.write(tw.encode(msg))
+        self.write(msg['raw'] if msg['type'] == 'RAW' else tw.encode(msg))
         # provenance model: only START..END runs of one id are deliverable
         if msg['type'] == 'XFER_SEGMENT' and self.sent_sess_init and not was_closed:
             if msg['flags'] & tw.FLAG_START:
@@ -218,7 +229,7 @@ class Peer(object):
                 if msg['flags'] & tw.FLAG_END:
                     self.completed_rx.append(self.open_rx['data'])
                     self.open_rx = None
-        if msg['type'] == 'contact':
+        if msg['type'] in ('contact', 'RAW'):
             self.sent_contact = True
         res = self.settle()
         self.injected.append(dict(name=name, msg=msg, out_of_place=oop, reactions_before=before, reactions_after=self.reactions(),
@@ -297,8 +308,14 @@ def run_sequence(role, state, names, obs):
         delivered = []
         if not peer.sim.world.callback_errors:
             try:
-                for tid in list(peer.end.call('recv_bundle_get_queue')):
-                    delivered.append(bytes(peer.end.call('recv_bundle_pop_data', str(tid))))
+                if peer.end.hdl._locations:
+                    for tid in list(peer.end.call('recv_bundle_get_queue')):
+                        delivered.append(bytes(peer.end.call('recv_bundle_pop_data', str(tid))))
+                else:
+                    # the contact has closed and left the bus; what it had announced as received is read from the object
+                    for item in list(peer.end.hdl._rx_map.values()):
+                        item.file.seek(0)
+                        delivered.append(bytes(item.file.read()))
             except Exception as err:  # pylint: disable=broad-except
                 problems.append(('raised', 'draining the receive queue failed: %s: %s' % (type(err).__name__, err), {}))
         obs['deliveries_checked'] += len(delivered)
@@ -334,9 +351,9 @@ def run_sequence(role, state, names, obs):
 
 def _state_alphabet(state):
     base = ['seg-whole', 'seg-start', 'seg-mid-current', 'seg-end-current', 'seg-mid-other', 'seg-end-other', 'ack-unknown', 'ack-unknown-end',
-            'refuse-unknown', 'sess-term', 'keepalive', 'msg-reject', 'unknown-type', 'unknown-type-ff']
+            'refuse-unknown', 'sess-term', 'keepalive', 'msg-reject', 'unknown-type', 'unknown-type-ff', 'unknown-type-00', 'unknown-type-08']
     if state == 'pre-contact':
-        return ['contact-bad-magic', 'contact-bad-version', 'contact-bad-version-7']
+        return ['contact-bad-magic', 'contact-bad-version', 'contact-bad-version-7', 'contact-bad-magic+good', 'contact-v3+good', 'contact-bad-magic+good+init']
     if state == 'own-unacked':
         return base + ['ack-own-first', 'refuse-own']
     return base
@@ -350,7 +367,7 @@ def cases(tier, seed):
             alpha = _state_alphabet(state)
             seqs = [(name,) for name in alpha] + list(itertools.product(alpha, repeat=2))
             if thorough and state != 'pre-contact':
-                reduced = [name for name in alpha if name not in ('seg-end-other', 'ack-unknown-end', 'unknown-type-ff', 'msg-reject')]
+                reduced = [name for name in alpha if name not in ('seg-end-other', 'ack-unknown-end', 'unknown-type-ff', 'unknown-type-08', 'msg-reject')]
                 seqs += list(itertools.product(reduced, repeat=3))
             block = 40
             for idx in range(0, len(seqs), block):
